@@ -263,6 +263,7 @@ type Machine struct {
 	transferred map[int]bool
 	spawnLocal map[int]bool
 	assumingPre bool
+	reject      *Clause // reject pass: this clause replaces the preconditions; no normal return may be reachable
 	entryLocks map[string]int
 	iterCut *loopCut // the cut of the loop whose iter clauses are being evaluated
 	guardedMaps map[int]bool
